@@ -132,6 +132,7 @@ INDEX = {
  "C25": {"package": ".", "harnesses": [
    {"name": "VerifH25BlockDiff", "common": {"max_depth": 3000}, "quick": {"bounds": {"blocks": 2}}, "thorough": {"bounds": {"blocks": 3}}},
    {"name": "VerifH25AttrCodec", "common": {"max_depth": 3000}, "quick": {"bounds": {}}},
+   {"name": "VerifH25Store", "package": "./boltdb", "common": {"max_depth": 4000, "max_steps": 50000000}, "quick": {"bounds": {"steps": 2, "ops": 3, "keys": 1}}, "thorough": {"bounds": {"steps": 2, "ops": 3, "keys": 2}}},
  ]},
  "C26": {"package": "./pql", "harnesses": [
    {"name": "VerifH26ParseConcrete", "quick": {"bounds": {}}},
